@@ -1,7 +1,34 @@
+"""C08 plugin.  pregen (tie T1): harness/cmd/c08/extract (go/ast, source text only) regenerates
+lean/GeomV/C08/Gen/GoProj.lean from the CURRENT proj/{merc,lcc,aea,eqdc,tmerc,krovak}.go; the `rfl` lemmas of
+lean/GeomV/C08/Ties.lean then re-check model = source for every arithmetic right-hand side."""
+import os, subprocess, sys
+sys.path.insert(0, os.path.join(os.path.dirname(os.path.dirname(os.path.abspath(__file__))), "lib"))
+import vcheck
+
 T = "GeomV.C08."
+GEN = os.path.join(vcheck.LEAN, "GeomV", "C08", "Gen")
+
+
+def pregen(check):
+    out = os.path.join(check.rundir, "c08extract")
+    with vcheck.Lock("go"):
+        p = subprocess.run(["go", "build", "-o", out, "./cmd/c08/extract"], cwd=vcheck.HARNESS, env=vcheck.GOENV,
+                           stdout=subprocess.PIPE, stderr=subprocess.STDOUT, text=True)
+    if p.returncode != 0:
+        check.broken.append("T1 extractor does not build: " + p.stdout.strip()[-300:])
+        return
+    with vcheck.Lock("lake"):   # Gen/*.lean is an input of lake build
+        p = subprocess.run([out, "--repo", vcheck.REPO, "--out", GEN], stdout=subprocess.PIPE, stderr=subprocess.STDOUT, text=True)
+    if p.returncode != 0:
+        check.broken.append("T1 extraction failed: " + p.stdout.strip()[-500:])
+    else:
+        vcheck.log(p.stdout.strip())
+
+
 CFG = {
     "id": "C08",
-    "lean_modules": ["GeomV.C08.Proofs", "GeomV.C08.ProofsConic", "GeomV.C08.ProofsTmerc", "GeomV.C08.ProofsGeodetic"],
+    "lean_modules": ["GeomV.C08.Proofs", "GeomV.C08.ProofsConic", "GeomV.C08.ProofsTmerc", "GeomV.C08.ProofsGeodetic", "GeomV.C08.ProofsKrovak", "GeomV.C08.Ties"],
+    "pregen": pregen,
     "exe": "geomv_c08",
     "go_cmd": "c08",
     "stages": ["go:gen", "go:impl", "lean:judge"],
@@ -12,7 +39,11 @@ CFG = {
         "C08_merc_ell_inv_of_converged", "C08_imlfn_fixed", "C08_imlfn_stationary", "C08_eqdc_inv_of_converged",
         "C08_tmerc_footpoint_fixed", "C08_aeaPhi1z_fixed", "C08_eqdc_sphere_inv", "C08_aea_sphere_inv",
         "C08_eqdc_sphere_inv_south", "C08_aea_sphere_inv_south", "lcc_chain", "C08_lcc_sphere_inv", "C08_lcc_inv_of_converged",
-        "aea_chain", "C08_aea_inv_of_converged", "C08_tmerc_sphere_inv", "C08_geodetic_fixed", "C08_geodetic_roundtrip_h0"]],
+        "aea_chain", "C08_aea_inv_of_converged", "C08_tmerc_sphere_inv", "C08_geodetic_fixed", "C08_geodetic_roundtrip_h0", "C08_krovak_lat_fixed"]] + [
+        # tie T1: model = definitions regenerated from the current Go source (rfl)
+        T + "Ties." + n for n in ["tie_initMerc", "tie_fwdMerc", "tie_invMerc", "tie_initLcc", "tie_fwdLcc", "tie_invLcc",
+                                  "tie_initAea", "tie_fwdAea", "tie_invAea", "tie_aeaPhi1zStep", "tie_initEqdc", "tie_fwdEqdc",
+                                  "tie_invEqdc", "tie_initTmerc", "tie_fwdTmerc", "tie_tmercPhiStep", "tie_invTmerc"]],
     "trusted_base": [
         "Lean 4.33.0 kernel; axioms of every theorem printed by #print axioms must be within {propext, Classical.choice, Quot.sound}; Mathlib v4.33 modules imported by RealInst/Lemmas/Proofs are checked by the same kernel",
         "the generic model lean/GeomV/C08/{ProjCommon,ProjMerc,ProjLcc,ProjAea,ProjEqdc,ProjTmerc,ProjKrovak,ProjDatum,ProjPipeline}.lean is ONE definition per Go function; its Float instance is tied to /repo/proj by the correspondence run on every check (1e-9 relative on projected metres, 1e-12 rad on angles), its Real instance is what the theorems are about",
